@@ -228,7 +228,8 @@ def accepted_language(src, f, rep):
                 accepted=accepted, chosen_ok=chosen_ok, guards=guards, rest=rest, alpha=alpha)
 
 
-def r1_accepted_set(rep, src):
+def r1_accepted_set(rep, src, rule='C14.R1', only_valid_accepted=False):
+    """(also used by C03 as its premise: every valid version can be constructed, hence compared)"""
     f = src.func(SITE + '._set_full_version')
     rep.saw_func(f)
     A = accepted_language(src, f, rep)
@@ -237,19 +238,21 @@ def r1_accepted_set(rep, src):
     w = A['accepted'].not_subset_witness(ref)
     site = f.site
     rx_name = '%s.%s' % (A['regex']['cls'], A['regex']['binding'])
-    if w is not None:
-        rep.fail('C14.R1', site, 'accepted ⊆ valid', 'the constructor accepts the invalid version string %r '
+    if only_valid_accepted:
+        pass
+    elif w is not None:
+        rep.fail(rule, site, 'accepted ⊆ valid', 'the constructor accepts the invalid version string %r '
                  '(regex %s %r with the %d raise-guard(s))' % (w, rx_name, A['regex']['pattern'], len(A['guards'])),
                  detail={'witness': w, 'direction': 'accepted-but-invalid', 'regex': A['regex']['pattern']}, where=f.where)
     else:
-        rep.ok('C14.R1', site, 'accepted ⊆ valid', 'every accepted string is a valid version (DFA %d states vs reference %d)'
+        rep.ok(rule, site, 'accepted ⊆ valid', 'every accepted string is a valid version (DFA %d states vs reference %d)'
                % (A['accepted'].nstates(), ref.nstates()))
     w = ref.not_subset_witness(A['accepted'])
     if w is not None:
-        rep.fail('C14.R1', site, 'valid ⊆ accepted', 'the constructor rejects the valid version string %r' % w,
+        rep.fail(rule, site, 'valid ⊆ accepted', 'the constructor rejects the valid version string %r%s' % (w, ': such versions cannot be compared at all' if only_valid_accepted else ''),
                  detail={'witness': w, 'direction': 'valid-but-rejected', 'regex': A['regex']['pattern']}, where=f.where)
     else:
-        rep.ok('C14.R1', site, 'valid ⊆ accepted', 'every valid version string is accepted')
+        rep.ok(rule, site, 'valid ⊆ accepted', 'every valid version string is accepted')
     return A
 
 
